@@ -281,7 +281,7 @@ fn main() {
     run.assume("no blank between key and '='; inputs whose first block holds only ignorable lines are skipped (the statement does not say whether they form a block lacking PKGNAME)");
     run.assume("dependency / location validity from the composed pattern and PKGPATH models; reference splitter mc/core/src/model/scanindex.rs");
 
-    let n = run.pick(4, 5);
+    let n = run.pick(4, 6);
     let m = run.pick(3, 4);
     run.bound(format!("all {} sequences of <= {} lines; faults on all {} sequences of <= {} lines", seqs::count(LINES.len(), n), n, seqs::count(LINES.len(), m), m));
     seqs::par_seqs(&run, "C16", LINES.len(), n, 2, |_| false, |s, t| {
